@@ -2,7 +2,7 @@
    Every client loop takes an ARBITRARY list of layouts (one per iteration / regrouping round):
    the layout may change between the partial requests of one call. `sorted st` is the store
    invariant (established by [] and preserved by every mutating operation, see the _sorted parts). *)
-From Verif Require Import RawKV.Model RawKV.ProofsStore RawKV.ProofsLoops RawKV.ProofsBatch RawKV.ProofsTop RawKV.Sequence.
+From Verif Require Import RawKV.Model RawKV.ProofsStore RawKV.ProofsLoops RawKV.ProofsBatch RawKV.ProofsRounds RawKV.ProofsCas RawKV.ProofsTop RawKV.Sequence.
 
 (* get / put (with ttl) / delete: the map laws; the ttl never influences what Get returns *)
 Theorem C11_get_put_delete : forall st k v ttl k',
@@ -88,34 +88,78 @@ Proof. exact c11_checksum_terminates. Qed.
 Print Assumptions C11_checksum_terminates.
 
 (* BatchGet: values positionally aligned with the requested keys (duplicates allowed, absent
-   keys -> nil), for any schedule of groupings / region errors / regroupings *)
+   keys -> nil), for any schedule of groupings / sub-batches / region errors / regroupings *)
 Theorem C11_batch_get_aligned : forall st sched keys res,
-  batch_get st sched keys = Some res ->
+  batch_get st sched keys = Some (Some res) ->
   res = map (srv_get st) keys /\ length res = length keys.
 Proof. exact c11_batch_get_aligned. Qed.
 Print Assumptions C11_batch_get_aligned.
 
-(* BatchPut = the puts applied in request order (last value of a duplicated key wins) *)
+(* BatchPut that returned nil = the puts applied in request order (last value of a duplicated key wins) *)
 Theorem C11_batch_put_last_wins : forall st sched kvs st',
-  sorted st -> batch_put st sched kvs = Some st' ->
+  sorted st -> batch_put st sched kvs = Some (st', true) ->
   sorted st' /\ st' = fold_left (fun s p => st_put s (fst p) (snd p)) kvs st /\
   forall k, st_get st' k = match find_last kvs k with Some e => Some e | None => st_get st k end.
 Proof. exact c11_batch_put_last_wins. Qed.
 Print Assumptions C11_batch_put_last_wins.
 
+(* BatchPut that may have returned an error (some batch failed for good or was cancelled after
+   others succeeded): every key keeps its entry or carries ITS last value of this call; keys
+   outside the request are untouched; nothing else is promised (no atomicity across keys) *)
+Theorem C11_batch_put_partial : forall st sched kvs st' ok,
+  sorted st -> batch_put st sched kvs = Some (st', ok) ->
+  sorted st' /\
+  forall k, st_get st' k = st_get st k \/
+            (In k (map fst kvs) /\ exists e, find_last kvs k = Some e /\ st_get st' k = Some e).
+Proof. exact c11_batch_put_partial. Qed.
+Print Assumptions C11_batch_put_partial.
+
 Theorem C11_batch_delete : forall st sched keys st',
-  sorted st -> bdel_rounds st sched keys = Some st' ->
+  sorted st -> bdel_rounds st sched keys = Some (st', true) ->
   sorted st' /\ st' = fold_left st_del keys st /\
   forall k, st_get st' k = if existsb (bytes_eqb k) keys then None else st_get st k.
 Proof. exact c11_batch_delete. Qed.
 Print Assumptions C11_batch_delete.
 
+Theorem C11_batch_delete_partial : forall st sched keys st' ok,
+  sorted st -> bdel_rounds st sched keys = Some (st', ok) ->
+  sorted st' /\ forall k, st_get st' k = st_get st k \/ (In k keys /\ st_get st' k = None).
+Proof. exact c11_batch_delete_partial. Qed.
+Print Assumptions C11_batch_delete_partial.
+
+(* sub-batching (512 keys / 16 KB) cuts a region group into consecutive pieces, and the result of
+   a batch call does not depend on where the batches are cut nor on the order they are applied:
+   ANY list of batches covering the request gives the single-map result *)
+Theorem C11_batch_boundaries_independent :
+  (forall ks, concat (key_chunks ks) = ks) /\
+  (forall kvs ks, concat (put_chunks kvs ks) = ks) /\
+  (forall st keys bs, (forall k, In k keys -> In k (concat bs)) ->
+     assemble keys (flat_map (srv_batch_get st) bs) = map (srv_get st) keys) /\
+  (forall st kvs bs, sorted st ->
+     (forall p, In p (concat bs) -> find_last kvs (fst p) = Some (snd p)) ->
+     (forall k, In k (map fst kvs) -> exists e, In (k, e) (concat bs)) ->
+     fold_left srv_batch_put bs st = fold_left (fun s p => st_put s (fst p) (snd p)) kvs st) /\
+  (forall st keys bs, sorted st -> (forall k, In k (concat bs) <-> In k keys) ->
+     fold_left srv_batch_delete bs st = fold_left st_del keys st).
+Proof. exact c11_batch_boundaries_independent. Qed.
+Print Assumptions C11_batch_boundaries_independent.
+
 (* a batch call finishes as soon as one round serves every batch *)
 Theorem C11_batch_terminates : forall st sched L keys kvs,
-  batch_get st (sched ++ [(L, fun _ => true)]) keys <> None /\
-  batch_put st (sched ++ [(L, fun _ => true)]) kvs <> None.
+  batch_get st (sched ++ [(L, all_served)]) keys <> None /\
+  batch_put st (sched ++ [(L, all_served)]) kvs <> None.
 Proof. exact c11_batch_terminates. Qed.
 Print Assumptions C11_batch_terminates.
+
+(* DeleteRange whose i-th request fails for good: exactly the keys k with s <= k < cursor are gone
+   (a prefix of the range, cut at region ends), everything else is untouched *)
+Theorem C11_delete_range_interrupted : forall st Ls s e st' c,
+  sorted st -> drange_run st Ls s e = DrFailed st' c ->
+  sorted st' /\ ~ klt c s /\ (c = s \/ e = [] \/ ~ klt e c) /\
+  st' = filter (fun p => negb (lex_leb s (fst p) && lex_ltb (fst p) c)) st /\
+  forall k, st_get st' k = if lex_leb s k && lex_ltb k c then None else st_get st k.
+Proof. exact c11_delete_range_interrupted. Qed.
+Print Assumptions C11_delete_range_interrupted.
 
 (* CompareAndSwap = compare-and-swap on the map, including previous-not-exist and empty values *)
 Theorem C11_cas : forall st k prev nv,
@@ -123,6 +167,24 @@ Theorem C11_cas : forall st k prev nv,
   (sorted st -> sorted (snd (srv_cas st k prev nv))).
 Proof. exact c11_cas. Qed.
 Print Assumptions C11_cas.
+
+(* CompareAndSwap needs SetAtomicForCAS(true); without it the call fails and changes nothing *)
+Theorem C11_atomic_mode : forall st k prev nv,
+  client_cas false st k prev nv = None /\ client_cas true st k prev nv = Some (spec_cas st k prev nv).
+Proof. exact c11_atomic_mode. Qed.
+Print Assumptions C11_atomic_mode.
+
+(* concurrent CAS callers = any interleaving of atomic steps = the same steps on the map *)
+Theorem C11_cas_interleaving : forall steps st, run_cas st steps = spec_run_cas st steps.
+Proof. exact run_cas_spec. Qed.
+Print Assumptions C11_cas_interleaving.
+
+(* ... and among the callers that expect pe on key k at most one succeeds, provided nobody writes pe
+   back (vacuous for pe = None: create-if-absent is a lock in every interleaving) *)
+Theorem C11_cas_at_most_one_winner : forall k pe steps st,
+  never_writes k pe steps -> (wins k pe steps (fst (run_cas st steps)) <= 1)%nat.
+Proof. exact cas_at_most_one_winner. Qed.
+Print Assumptions C11_cas_at_most_one_winner.
 
 (* whole sequences: ANY list of calls, each carrying ANY layout schedule, returns the results and
    leaves the map that the same calls produce on one ordered map (spec_op mentions no layout) *)
@@ -153,8 +215,9 @@ Example ex_drange :
   = Some [([97], [9]); ([99], [3]); ([100], [4])].
 Proof. vm_compute. reflexivity. Qed.
 Example ex_bget :
-  batch_get ex_store [([[98; 0]], fun g => bytes_eqb g []); ([[99]], fun _ => true)] [[99]; [101]; [97]; [99]; [98; 0]]
-  = Some [Some [3]; None; Some [9]; Some [3]; Some []].
+  batch_get ex_store [([[98; 0]], fun g _ => if bytes_eqb g [] then Served else Bounced); ([[99]], all_served)]
+            [[99]; [101]; [97]; [99]; [98; 0]]
+  = Some (Some [Some [3]; None; Some [9]; Some [3]; Some []]).
 Proof. vm_compute. reflexivity. Qed.
 Example ex_cas_absent : fst (srv_cas ex_store [101] None [7]) = (None, true).
 Proof. vm_compute. reflexivity. Qed.
@@ -166,9 +229,29 @@ Example ex_cksum_cut :
 Proof. vm_compute. reflexivity. Qed.
 Example ex_sequence :
   option_map fst (run_ops (fun _ _ => 0) []
-    [OBatchPut [([97], mkEntry [1] 0); ([99], mkEntry [3] 0); ([97], mkEntry [2] 0)] [([[98]], fun _ => true)];
+    [OBatchPut [([97], mkEntry [1] 0); ([99], mkEntry [3] 0); ([97], mkEntry [2] 0)] [([[98]], all_served)];
      OCas [98] None [7];
      ODeleteRange [97; 0] [] [[[98]]; [[99]]; []];
      OScan [] [] 5 [[]]])
   = Some [RUnit; RCas None true; RUnit; RPairs [([97], [2])]].
+Proof. vm_compute. reflexivity. Qed.
+(* a batch put whose second region batch is dropped: a is written, c keeps its old entry *)
+Example ex_bput_partial :
+  option_map (fun r => (map kv (fst r), snd r))
+    (batch_put ex_store [([[98]], fun g _ => if bytes_eqb g [] then Served else Dropped)]
+               [([97], mkEntry [5] 0); ([99], mkEntry [6] 0)])
+  = Some ([([97], [5]); ([98], [2]); ([98; 0], []); ([99], [3]); ([100], [4])], false).
+Proof. vm_compute. reflexivity. Qed.
+(* sub-batching: 3 keys with the count limit lowered to 1 are cut 2 + 1 (the Go test is count > limit) *)
+Example ex_chunk : chunk (fun c => 1 <? c) (fun _ => 1) [[1]; [2]; [3]] = [[[1]; [2]]; [[3]]].
+Proof. vm_compute. reflexivity. Qed.
+Example ex_drange_interrupted :
+  match drange_run ex_store [Some [[98]]; None] [97] [100] with
+  | DrFailed st' c => (map kv st', c) = ([([98], [2]); ([98; 0], []); ([99], [3]); ([100], [4])], [98])
+  | _ => False
+  end.
+Proof. vm_compute. reflexivity. Qed.
+Example ex_cas_race :
+  fst (run_cas ex_store [([101], None, [1]); ([101], None, [2]); ([101], Some [1], [3]); ([101], None, [4])])
+  = [(None, true); (Some [1], false); (Some [1], true); (Some [3], false)].
 Proof. vm_compute. reflexivity. Qed.
